@@ -1151,7 +1151,24 @@ def check(ctx):
     # ---------------------------------------------------------------- D2: type every hole
     for (name, h, hctx, glue), where in sorted(seen_holes.items()):
         base, filters, rawf = split_hole(h)
-        cls, src = hole_class(base, typing, prod, S)
+        if " ~ " in base and "(" not in base:
+            # a concatenation (`"tauri-typegen v" ~ global.version`, usually through a `set` variable): whatever any of its parts can contain
+            cls, srcs = set(), []
+            for part_ in base.split(" ~ "):
+                part_ = part_.strip()
+                if len(part_) >= 2 and part_[0] == '"' and part_[-1] == '"':
+                    try:
+                        cls |= set(lit_hazards(json.loads(part_)))
+                    except ValueError:
+                        cls |= set(UNKNOWN)
+                    srcs.append("literal")
+                else:
+                    c_, s_ = hole_class(part_, typing, prod, S)
+                    cls |= set(c_)
+                    srcs.append(s_)
+            cls, src = frozenset(cls), " ~ ".join(srcs)
+        else:
+            cls, src = hole_class(base, typing, prod, S)
         safe_as = None
         for fl in filters:
             plain = not (cls & {"<type>", "<rendered>", "<unknown>"})
